@@ -5,10 +5,13 @@ destructor, the copy constructor and `operator=`), core Lean only.
 An object is its three data members: `maxBufferSize_`, `interface_` (a pointer to an `InterfaceMap`, here: the number of
 the map it points to) and `communicator_` (an MPI communicator handle, here: a number).  MPI is a table of live handles:
 `MPI_Comm_dup` hands out a handle that was never handed out before, `MPI_Comm_free` retires one; an MPI call that gets a
-handle which is not live (never made, or freed) sets `fault`.  `0` stands for the communicator the user passes to a
-constructor (`MPI_COMM_WORLD` or `Interface::communicator()`), which the class never frees.
+handle which is not live (never made, or freed) sets `fault`.  The handles `0 .. users-1` are the communicators the user
+passes to the constructors (`MPI_COMM_WORLD`, `Interface::communicator()`, a communicator with another rank order …);
+they are always valid and the class must never free them.  `origin c` is the user communicator a handle descends
+from by duplication, i.e. the process group and rank numbering its messages use.
 
   constructors          `construct`  maxBufferSize_(size or the default), interface_(&map), MPI_Comm_dup(comm, &communicator_)
+                                     (`comm` is the argument or `inf.communicator()`)
   ~VariableSizeCommunicator  `destroy`  MPI_Comm_free(&communicator_)
   copy constructor      `copy`       the two members taken over, MPI_Comm_dup(other.communicator_, &communicator_)
   operator=             `assign`     nothing if `this == &other`; else the two members taken over, the own communicator
@@ -18,7 +21,7 @@ constructor (`MPI_COMM_WORLD` or `Interface::communicator()`), which the class n
 
 `default` is 32768, or the value of the macro DUNE_PARALLEL_MAX_COMMUNICATION_BUFFER_SIZE when that is defined (the
 second pair of default constructors).  The value semantics the class is supposed to have (`specStep`: a copy or an
-assignment takes over buffer size and map of its source) is what the harness computes independently.
+assignment takes over buffer size, map and process group of its source) is what the harness computes independently.
 -/
 namespace DV.C06
 
@@ -32,21 +35,26 @@ deriving DecidableEq, Repr
 /-- the objects of a program (by slot) and the MPI communicator table -/
 structure World where
   slots : Nat → Option VscObj
+  /-- number of user communicators (handles `0 .. users-1`) -/
+  users : Nat
   nextComm : Nat
   liveComms : List Nat
+  /-- the user communicator a handle was duplicated from, directly or through other duplicates -/
+  origin : Nat → Nat
   fault : Bool
 
-def World.init : World := ⟨fun _ => none, 1, [], false⟩
+def World.init (users : Nat) : World := ⟨fun _ => none, users, users, [], id, false⟩
 
 def setSlot {β : Type} (f : Nat → Option β) (s : Nat) (v : Option β) : Nat → Option β :=
   fun i => if i = s then v else f i
 
 /-- is `c` a communicator an MPI call may be given? -/
-def World.valid (w : World) (c : Nat) : Bool := c == 0 || w.liveComms.contains c
+def World.valid (w : World) (c : Nat) : Bool := decide (c < w.users) || w.liveComms.contains c
 
 /-- `MPI_Comm_dup(c, &fresh)` -/
 def World.dup (w : World) (c : Nat) : Nat × World :=
   (w.nextComm, { w with nextComm := w.nextComm + 1, liveComms := w.nextComm :: w.liveComms,
+                        origin := fun d => if d = w.nextComm then w.origin c else w.origin d,
                         fault := w.fault || !w.valid c })
 
 /-- `MPI_Comm_free(&c)` -/
@@ -54,8 +62,9 @@ def World.free (w : World) (c : Nat) : World :=
   { w with liveComms := w.liveComms.erase c, fault := w.fault || !w.liveComms.contains c }
 
 inductive LifeOp where
-  /-- one of the four constructors: `size = none` for the two without a buffer size argument -/
-  | construct (s : Nat) (size : Option Nat) (iface : Nat)
+  /-- one of the four constructors: `size = none` for the two without a buffer size argument; `user`: the communicator
+      argument resp. the communicator of the `Interface` argument -/
+  | construct (s : Nat) (size : Option Nat) (iface : Nat) (user : Nat)
   | copy (s t : Nat)
   | assign (s t : Nat)
   | destroy (s : Nat)
@@ -64,12 +73,14 @@ deriving DecidableEq, Repr
 
 /-- one statement of a program; `none`: the *program* is ill-formed (constructs into a used slot, names an empty slot) -/
 def lifeStep (dflt : Nat) (w : World) : LifeOp → Option World
-  | .construct s size iface =>
+  | .construct s size iface user =>
     match w.slots s with
     | some _ => none
     | none =>
-      let (c, w) := w.dup 0
-      some { w with slots := setSlot w.slots s (some ⟨size.getD dflt, iface, c⟩) }
+      if user < w.users then
+        let (c, w) := w.dup user
+        some { w with slots := setSlot w.slots s (some ⟨size.getD dflt, iface, c⟩) }
+      else none
   | .copy s t =>
     match w.slots s, w.slots t with
     | none, some o =>
@@ -98,15 +109,15 @@ def lifeExec (dflt : Nat) : World → List LifeOp → Option World
   | w, [] => some w
   | w, op :: ops => (lifeStep dflt w op).bind (lifeExec dflt · ops)
 
-/-! ### the value semantics: a slot holds (buffer size, map) -/
+/-! ### the value semantics: a slot holds (buffer size, map, user communicator) -/
 
-abbrev SpecWorld := Nat → Option (Nat × Nat)
+abbrev SpecWorld := Nat → Option (Nat × Nat × Nat)
 
-def specStep (dflt : Nat) (σ : SpecWorld) : LifeOp → Option SpecWorld
-  | .construct s size iface =>
+def specStep (users dflt : Nat) (σ : SpecWorld) : LifeOp → Option SpecWorld
+  | .construct s size iface user =>
     match σ s with
     | some _ => none
-    | none => some (setSlot σ s (some (size.getD dflt, iface)))
+    | none => if user < users then some (setSlot σ s (some (size.getD dflt, iface, user))) else none
   | .copy s t =>
     match σ s, σ t with
     | none, some v => some (setSlot σ s (some v))
@@ -124,10 +135,12 @@ def specStep (dflt : Nat) (σ : SpecWorld) : LifeOp → Option SpecWorld
     | some _ => some σ
     | none => none
 
-def specExec (dflt : Nat) : SpecWorld → List LifeOp → Option SpecWorld
+def specExec (users dflt : Nat) : SpecWorld → List LifeOp → Option SpecWorld
   | σ, [] => some σ
-  | σ, op :: ops => (specStep dflt σ op).bind (specExec dflt · ops)
+  | σ, op :: ops => (specStep users dflt σ op).bind (specExec users dflt · ops)
 
-def VscObj.cfg (o : VscObj) : Nat × Nat := (o.maxBufferSize, o.interface)
+/-- what an object is configured with: buffer size, map, and the user communicator its private communicator copies -/
+def objCfg (origin : Nat → Nat) (o : VscObj) : Nat × Nat × Nat := (o.maxBufferSize, o.interface, origin o.comm)
+abbrev World.cfg (w : World) (o : VscObj) : Nat × Nat × Nat := objCfg w.origin o
 
 end DV.C06
